@@ -187,6 +187,38 @@ def evaluate(case) -> Outcome:
                     out.add("C16/sid-get_attr/differs", f"Sid({u!r}).get_attr({k!r}) = {v2!r}, expected {want!r} (configured getter: {g})")
             elif not okb:
                 out.add(f"C16/sid-get_attr/raises/{exc_sig(v2)}", f"Sid({u!r}).get_attr({k!r}) raised {v2!r}")
+    # the configuration argument selects the tree: other data in the last configuration's tree must be read from there only
+    configs = list(model.paths)
+    if len(configs) >= 2 and ents:
+        other = configs[-1]
+        pmo = model.paths[other]
+        t0, f0 = ents[0]
+        if pmo.has_path(t0):
+            tree.materialise(model, other, [(t0, f0)])
+            model.data_mod.get_data_json_path(Path(pmo.render(t0, f0))).write_text(json.dumps({"where": other}))
+            s0 = m.render(t0, f0)
+            for c in (cname, other):
+                okc, rec = call(lambda: dict(GetFromPaths(c).get_data(t0 + ":" + s0)))
+                out.evaluations += 1
+                want = dict(stored.get(s0, {}), sid=s0) if c == cname else {"where": other, "sid": s0}
+                if not okc:
+                    out.add(f"C16/config/raises/{exc_sig(rec)}", f"GetFromPaths({c!r}).get_data({s0!r}) raised {rec!r}")
+                elif rec != want:
+                    out.add("C16/config/data-read-from-another-configuration", f"GetFromPaths({c!r}).get_data({s0!r}) = {rec}, expected {want}")
+            okc, recs = call(lambda: [dict(r) for r in GetFromPaths(other).get(s0)])
+            if okc and recs != [{"where": other, "sid": s0}]:
+                out.add("C16/config/get-read-from-another-configuration", f"GetFromPaths({other!r}).get({s0!r}) = {recs}")
+            fk = [k for k in m.keys(t0) if m.specs[(t0, k)].free]
+            if fk:
+                f1 = dict(f0, **{fk[-1]: "onlyhere"})
+                s1 = m.render(t0, f1)
+                tree.materialise(model, other, [(t0, f1)])
+                for c in (cname, other):
+                    okc, recs = call(lambda: [dict(r) for r in GetFromPaths(c).get(s1)])
+                    want = [{"sid": s1}] if c == other else []
+                    if okc and recs != want:
+                        out.add("C16/config/get-searches-another-configuration", f"{s1!r} exists only in the {other!r} tree; GetFromPaths({c!r}).get -> {recs}, expected {want}")
+            out.label("config-probe")
     out.nontrivial = bool(nt)
     out.key = [case["entities"], case["data"], nt]
     out.evaluations = max(1, out.evaluations)
